@@ -1346,6 +1346,9 @@ func Run(c *hx.Ctx) error {
 			if bs.client != nil {
 				bs.recoverAndRead(r, c)
 			}
+			for i := 0; i < 4; i++ {
+				runFieldKey(c, r)
+			}
 		}
 	}
 	return nil
